@@ -7,7 +7,7 @@ from psa import model
 from psa import normform
 from psa.model import own_nodes, own_nodes_of, src
 from psa.rules import common as C
-from psa.rules import c01, c05
+from psa.rules import c01, c05, c20
 
 EXPLANATION = (
     "R2.1 sibling predicates: the SQL candidate filter "
@@ -174,7 +174,7 @@ def r21b(ctx, R):
     exc = C.calls_to(ctx, m, f.qbase)
     adds = [n for n in own_nodes(m.node) if isinstance(n, ast.Call)
             and isinstance(n.func, ast.Attribute) and n.func.attr == 'add'
-            and src(n.func.value) == 'areqs']
+            and src(n.func.value) == (c20.merged_set_var(m) or '')]
     okm = len(cons) == 1 and len(exc) == 1 and len(adds) == 1
     if okm:
         cst = C.stmt_of(cons[0])
@@ -442,24 +442,31 @@ def _emitted_keys(ctx, f):
     """[(key, gate or None)] for dict(...) keywords and constant stores on
     the result variable of a transform function."""
     out = []
+    # element variables: what is appended to the returned list
+    ret = {r.value.id for r in own_nodes(f.node) if isinstance(r, ast.Return)
+           and isinstance(r.value, ast.Name)}
+    elem = set()
+    for n in own_nodes(f.node):
+        if isinstance(n, ast.Call) and isinstance(n.func, ast.Attribute) \
+                and n.func.attr == 'append' and isinstance(
+                    n.func.value, ast.Name) and n.func.value.id in ret and \
+                n.args and isinstance(n.args[0], ast.Name):
+            elem.add(n.args[0].id)
     for n in own_nodes(f.node):
         if isinstance(n, ast.Assign) and isinstance(n.value, ast.Call) and \
                 src(n.value.func) == 'dict' and len(n.targets) == 1 and \
-                isinstance(n.targets[0], ast.Name) and n.targets[0].id in (
-                    'result', 'alloc'):
+                isinstance(n.targets[0], ast.Name) and n.targets[0].id in elem:
             for k in n.value.keywords:
                 out.append((k.arg, None, n))
         if isinstance(n, ast.Assign) and isinstance(n.value, ast.Dict) and \
-                isinstance(n.targets[0], ast.Name) and n.targets[0].id in (
-                    'result', 'alloc'):
+                isinstance(n.targets[0], ast.Name) and n.targets[0].id in elem:
             for k in n.value.keys:
                 if isinstance(k, ast.Constant):
                     out.append((k.value, None, n))
         if isinstance(n, ast.Assign):
             for t in n.targets:
                 if isinstance(t, ast.Subscript) and isinstance(
-                        t.value, ast.Name) and t.value.id in (
-                            'result', 'alloc') and isinstance(
+                        t.value, ast.Name) and t.value.id in elem and isinstance(
                                 t.slice, ast.Constant):
                     gate = None
                     for i, br in C.guarding_ifs(n, f.node):
